@@ -20,6 +20,13 @@ CHECKS = {
             'parsed document is the same at every indent, decoded value re-encodes',
             'trusts Python json and expat as the independent readers; XER strings restricted to XML 1.0 Char',
             'property-based testing (Hypothesis), round-trip + metamorphic (indent) oracle, independent parsers'),
+    'C03': ('hypothesis + model/der', 'exploration',
+            'generated modules x values, codec der: bytes equal an independent X.690 DER encoder driven by the AST; an '
+            'independent TLV re-read finds definite minimal lengths and primitive strings; abstractly equal values in '
+            'other Python representations encode to identical bytes',
+            'trusts vlib/model/der.py + tlv.py (self-tested on 31 hand-checked vectors at start-up; agreement on ~20k '
+            'generated comparisons per run is itself evidence for the model)',
+            'differential property-based testing against an independent DER model, plus metamorphic equal-value check'),
     'C07': ('hypothesis', 'exploration',
             'generated V1 module sets and V2 = V1 after 1-5 legal extension steps at random extensible nodes x V2 and V1 '
             'values x 7 codecs: V1.decode(V2.encode(v2)) equals the V1 projection of v2 (unknown additions dropped, '
